@@ -527,3 +527,22 @@ mod test {
         assert_eq!(s.get(&1, 0).unwrap().read(), 1);
     }
 }
+
+#[cfg(transparencies_stretto_verif)]
+impl<V: Send + Sync + 'static, U: UpdateValidator<Value = V>, SS: BuildHasher + Clone + 'static, ES: BuildHasher + Clone + 'static>
+    ShardedMap<V, U, SS, ES>
+{
+    /// visit every physically resident entry: (index, conflict, value, expiration)
+    pub(crate) fn verif_entries(&self, f: &mut dyn FnMut(u64, u64, &V, Time)) {
+        for shard in self.shards.iter() {
+            let data = shard.read();
+            for (k, item) in data.iter() {
+                f(*k, item.conflict, item.value.get(), item.expiration);
+            }
+        }
+    }
+
+    pub(crate) fn verif_buckets(&self) -> Vec<(i64, Vec<(u64, u64)>)> {
+        self.em.verif_buckets()
+    }
+}
